@@ -122,6 +122,10 @@ func cmdSession(args []string) error {
 			scriptPath = args[i+1]
 		case "-out":
 			outPath = args[i+1]
+		case "-iso":
+			if err := loadIso(args[i+1]); err != nil {
+				return err
+			}
 		}
 	}
 	pt, err := loadProto(protoPath)
@@ -249,7 +253,11 @@ func runWorld(pt *protoTable, wj *worldJ, em *emitter, index int) error {
 			viewsOut = append(viewsOut, map[string]interface{}{"vk": v.Vk, "p": nonNil(v.P), "cid": "?unreadable:" + err.Error(), "size": pos(-1)})
 			continue
 		}
-		reg.add(&memSource{name: name, data: data, mask: v.Mask})
+		mask := v.Mask
+		if mask == nil {
+			mask = varMask(v.Vk == "ps3")
+		}
+		reg.add(&memSource{name: name, data: data, mask: mask})
 		viewsOut = append(viewsOut, map[string]interface{}{"vk": v.Vk, "p": nonNil(v.P), "cid": name, "size": pos(int64(len(data)))})
 	}
 	if viewsOut == nil {
@@ -466,6 +474,20 @@ func (env *sessionEnv) doReq(c *memConn, cj *connJ, r *reqJ) bool {
 			}
 		}
 		return true
+	}
+	if r.Op == "BAD_OPCODE" {
+		// a command whose opcode the protocol table does not know
+		code := uint16(r.Start)
+		if code == 0 {
+			code = 0x1111
+		}
+		for env.pt.byCode[int(code)] != nil {
+			code++
+		}
+		b := make([]byte, env.pt.CommandLen)
+		b[0], b[1] = byte(code>>8), byte(code)
+		return env.exchange(c, cj, "BAD_OPCODE", map[string]interface{}{"op": "BAD_OPCODE", "path": []string{}, "limit": pos(0), "off": pos(0),
+			"start": 0, "count": 0, "plen": 0, "chunk": "", "hugeArgs": false}, b, nil)
 	}
 	frameBytes, req, err := env.buildFrame(r)
 	if err != nil {
